@@ -118,7 +118,7 @@ class PropertyRun:
     # ------------------------------------------------------------ tier P
     def gen_vcs(self):
         for key, c in self.reg.fns.items():
-            if c.prop and c.prop != self.pid:
+            if c.prop and c.prop != self.pid and self.pid not in c.also:
                 continue
             if not c.verify:
                 self.assumptions.append(f"assumed contract (not verified here): {c.key} - {c.doc}")
@@ -418,6 +418,13 @@ class PropertyRun:
 
 def run_property(pid: str, tier: str, seed: int, only=None) -> int:
     t0 = time.time()
+    rdir = os.path.join(ROOT, "replays", pid)
+    if os.path.isdir(rdir):
+        for f in os.listdir(rdir):
+            try:
+                os.unlink(os.path.join(rdir, f))
+            except OSError:
+                pass
     run = PropertyRun(pid, tier, seed)
     if only in (None, "P"):
         run.gen_vcs()
